@@ -24,6 +24,7 @@ RULE = ("for each traced operation: public inputs and all lengths fixed, secrets
         "(operation, public input, secret) triples")
 TRUSTED = ["valgrind 3.19 lackey instruction trace (= the instructions the optimised binary executes; cross-checked against a ptrace single-step "
            "trace in the thorough tier)", "rustc -O code generation is observed, not proved: the Lean leakage theorems speak about the models"]
+PROOF_SCOPE = 'partial by nature: the Lean leakage theorems speak about instrumented models (see the theorem list for which code they cover); the property itself — the instruction trace of the optimised binary — is observed with an instruction tracer on every listed operation'
 ASSUMPTIONS = ["lengths, public keys, nonces, messages are public; keys, scalars, seeds, tags, plaintexts are secret",
                "memory-address traces (loads/stores) are also hashed and reported as information (mem_trace_equal) but are not part of the property"]
 
